@@ -181,8 +181,20 @@ def cell_of(**kw):
 class Pair:
     """One provider + one relying party configured for one cell."""
 
-    def __init__(self, cell, clock=None, latency=0, allowed_scopes=None):
+    def __init__(self, cell, clock=None, latency=0, allowed_scopes=None, client_id=None, share=None,
+                 token_usage_rules=None, authz=None, lifetimes=None):
+        """client_id: the client identifier of this relying party (default: CLIENT_ID).  share: another Pair whose
+        PROVIDER INSTANCE this relying party uses too (several clients registered at one provider; the provider is
+        not built again, `cell` then only configures the relying party and its client record).
+        token_usage_rules: per-client usage rules the operator puts into this client's record (None: none).
+        authz / lifetimes: the provider's authz configuration (default AUTHZ) and token-handler lifetimes
+        (srv.op_conf `lifetimes`), for providers whose usage rules state no lifetime."""
         self.cell = cell
+        self.client_id = client_id or CLIENT_ID
+        self.share = share
+        self.token_usage_rules = token_usage_rules
+        self.authz = authz if authz is not None else AUTHZ
+        self.lifetimes = lifetimes
         # what the operator allows this client: None = every scope value the provider knows, stated in the client
         # record (the configuration of all flows that do not vary it); "unset" = the record has no allowed_scopes;
         # a list = exactly these
@@ -194,7 +206,10 @@ class Pair:
         self.rp_rts = list(ALL_RTS) if cell.get("rp_all_rts") else [cell["rt"]]
         self.log = []        # (endpoint, status, detail) of every dispatched HTTP exchange
         self.clock = clock
-        self._build_op()
+        if share is not None:
+            self.server, self.ctx, self.ep = share.server, share.ctx, share.ep
+        else:
+            self._build_op()
         self._build_rp()
 
     # ------------------------------------------------------------------ provider
@@ -217,8 +232,8 @@ class Pair:
         }
         if c.get("op_explicit", True):
             extra["response_types_supported"] = list(ALL_RTS)
-        conf = srv.op_conf(jwt_access=c["at_jwt"], jwt_refresh=c["rf_jwt"], oidc=True, authz=AUTHZ,
-                           add_ons=add_ons or None, extra=extra,
+        conf = srv.op_conf(jwt_access=c["at_jwt"], jwt_refresh=c["rf_jwt"], oidc=True, authz=self.authz,
+                           add_ons=add_ons or None, extra=extra, lifetimes=self.lifetimes,
                            endpoints={"introspection": {"client_authn_method": [
                                "client_secret_post", "client_secret_basic", "client_secret_jwt", "private_key_jwt"]}})
         okj = KeyJar()
@@ -237,9 +252,9 @@ class Pair:
         priv, pub = rp_jwks()
         kj = KeyJar()
         kj.import_jwks(priv, "")
-        kj.import_jwks(priv, CLIENT_ID)
+        kj.import_jwks(priv, self.client_id)
         kj.add_symmetric("", self.secret)
-        kj.add_symmetric(CLIENT_ID, self.secret)
+        kj.add_symmetric(self.client_id, self.secret)
         kj.httpc = self.httpc
         kj.httpc_params = {}
         services = {
@@ -263,7 +278,7 @@ class Pair:
                     else "client_secret_basic"}}
         conf = {
             "base_url": RP_BASE,
-            "client_id": CLIENT_ID,
+            "client_id": self.client_id,
             "client_secret": self.secret,
             "client_type": "oidc",
             "issuer": ISS,
@@ -312,7 +327,7 @@ class Pair:
         rctx = self.rp.get_context()
         use = rctx.claims.use
         rec = {
-            "client_id": CLIENT_ID,
+            "client_id": self.client_id,
             "client_secret": self.secret,
             "client_salt": "salted",
             "redirect_uris": [(u, None) for u in (use.get("redirect_uris") or [])],
@@ -333,9 +348,12 @@ class Pair:
             rec["response_types_supported"] = list(use["response_types"])
         if use.get("request_uris"):
             rec["request_uris"] = [(u, None) for u in use["request_uris"]]
-        self.ctx.cdb[CLIENT_ID] = rec
-        self.server.keyjar.add_symmetric(CLIENT_ID, self.secret)
-        self.server.keyjar.import_jwks(self.rp_pub_jwks, CLIENT_ID)
+        if self.token_usage_rules is not None:
+            import copy
+            rec["token_usage_rules"] = copy.deepcopy(self.token_usage_rules)
+        self.ctx.cdb[self.client_id] = rec
+        self.server.keyjar.add_symmetric(self.client_id, self.secret)
+        self.server.keyjar.import_jwks(self.rp_pub_jwks, self.client_id)
         self.rp_use = {k: v for k, v in use.items() if k not in ("client_secret", "jwks")}
         return rec
 
@@ -484,8 +502,10 @@ def wire_scope(body):
 
 
 def run_flow(pair, scope, claims=None, extra_args=None, do_refresh=True, do_introspect=True, user=USER,
-             refresh_pauses=(37, 41), refresh_scopes=None):
-    """Drive one complete flow. Returns an observation dict; raises FlowFailure(stage, detail) when a step
+             refresh_pauses=(37, 41), refresh_scopes=None, setup=True, introspect_refresh=False):
+    """Drive one complete flow.  setup=False: a further flow of a relying party that already ran discovery and is
+    registered (its second, third ... flow on the same provider instance).  introspect_refresh: the relying party
+    also asks the introspection endpoint about the REFRESH token it was given (obs["introspection_refresh"]). Returns an observation dict; raises FlowFailure(stage, detail) when a step
     does not complete.  refresh_scopes: per refresh round, the scope the relying party's caller asks the refreshed
     token to be valid for (None / missing = nothing asked, the relying party sends what it has on record)."""
     from idpyoidc.message.oauth2 import is_error_message
@@ -493,25 +513,31 @@ def run_flow(pair, scope, claims=None, extra_args=None, do_refresh=True, do_intr
     rp, server = pair.rp, pair.server
     obs = {"cell": c, "stages": [], "user": user}
     srv.set_user(server, user)
+    # a relying party may run several flows: only what THIS flow adds to the pair's logs belongs to it
+    log0, times0 = len(pair.log), len(pair.token_times)
 
     def stage(name, fn):
         try:
             r = fn()
         except FlowFailure as f:
-            f.where = canonical_where(f.stage, pair.log)
+            f.where = canonical_where(f.stage, pair.log[log0:])
             raise
         except Exception as e:
             f = FlowFailure(name, "%s: %s | log=%s" % (type(e).__name__, str(e)[:300], pair.log[-3:]))
-            f.where = canonical_where(name, pair.log)
+            f.where = canonical_where(name, pair.log[log0:])
             raise f
         obs["stages"].append(name)
         return r
 
-    stage("provider_info", rp.do_provider_info)
+    if setup:
+        stage("provider_info", rp.do_provider_info)
     # the scope values the provider advertises, as the relying party read them from the discovery document
     obs["advertised_scopes"] = list((rp.get_context().provider_info or {}).get("scopes_supported") or [])
-    stage("registration", rp.do_client_registration)
-    rec = pair.register_static()
+    if setup:
+        stage("registration", rp.do_client_registration)
+        rec = pair.register_static()
+    else:
+        rec = dict(pair.ctx.cdb[pair.client_id])
     obs["op_client_record"] = {k: v for k, v in rec.items() if k not in ("client_secret",)}
 
     args = {"response_type": c["rt"], "scope": list(scope)}
@@ -600,7 +626,7 @@ def run_flow(pair, scope, claims=None, extra_args=None, do_refresh=True, do_intr
         obs["id_token_jws_header"] = dict(getattr(idt, "jws_header", None) or {})
         obs["id_token_jwe_header"] = dict(getattr(idt, "jwe_header", None) or {}) or None
     obs["token_response"] = dict(pair.last_token_response) if pair.last_token_response else None
-    obs["token_times"] = list(pair.token_times)
+    obs["token_times"] = list(pair.token_times[times0:])
     obs["userinfo_wire"] = pair.last_userinfo_wire
     # the ID Token string the relying party ended up with (token response, else authorization response)
     obs["raw_id_token"] = (obs["token_response"] or {}).get("id_token") or delivered.get("id_token")
@@ -634,6 +660,13 @@ def run_flow(pair, scope, claims=None, extra_args=None, do_refresh=True, do_intr
                                  authn_method="client_secret_basic", state=st)
         ir = stage("introspection", intro)
         obs["introspection"] = ir.to_dict() if hasattr(ir, "to_dict") else dict(ir)
+    _rft = (obs["token_response"] or {}).get("refresh_token")
+    if _rft and introspect_refresh:
+        def intro_rf():
+            return rp.do_request("introspection", request_args={"token": _rft},
+                                 authn_method="client_secret_basic", state=st)
+        irf = stage("introspection_refresh", intro_rf)
+        obs["introspection_refresh"] = irf.to_dict() if hasattr(irf, "to_dict") else dict(irf)
     # ---- refresh rounds: the clock moves on, the RP refreshes, and every observation point is read again for the
     #      REFRESHED access token (token response of the refresh, RP state, introspection, userinfo, session record)
     obs["refresh_rounds"] = []
@@ -690,5 +723,5 @@ def run_flow(pair, scope, claims=None, extra_args=None, do_refresh=True, do_intr
             obs["refresh_rounds"].append(rd)
             if not tr.get("refresh_token"):
                 break
-    obs["http_log"] = [(a, b) for a, b, _ in pair.log]
+    obs["http_log"] = [(a, b) for a, b, _ in pair.log[log0:]]
     return obs
